@@ -337,6 +337,12 @@ fn run_in(case: &C11Case, exec: &mut Exec) -> Result<CaseInfo, Fail> {
         .map(|i| &i.frame)
         .filter(|w| w.topic != "xs.threshold" && w.topic != "xs.pulse")
         .collect();
+    if std::env::var_os("XSV_TRACE").is_some() {
+        eprintln!("-- opts {opts:?}\n-- history {:?}\n-- live {:?}\n-- delivered {:?} closed={} at {:?}", history.iter().map(|w| &w.id).collect::<Vec<_>>(), live_frames.iter().map(|w| (&w.id, &w.ctx)).collect::<Vec<_>>(), f.items.iter().map(|i| (&i.frame.id, &i.frame.topic, i.t_us)).collect::<Vec<_>>(), f.closed, f.closed_at_us);
+        for e in res.events.iter().filter(|e| e.label.starts_with("read.")) {
+            eprintln!("-- ev {} {} {} {:?}", e.t_us, e.actor, e.label, e.id);
+        }
+    }
     let thresholds = f.items.iter().filter(|i| i.frame.topic == "xs.threshold").count();
     let pulses = f.items.iter().filter(|i| i.frame.topic == "xs.pulse").count();
     let mut known_hits = vec![];
